@@ -27,6 +27,10 @@ RULE = ("configuration: prefix/suffix (absent or 1-3 chars) and 0-3 stop sequenc
         "every end-of-stream protocol (push_chunk(\"\"), push_chunk(None), on_llm_end, \"\"+on_llm_end), queue and pipe_to mode, "
         "push_chunk and on_llm_new_token feeding; an empty FIRST token through on_llm_new_token (ignored by design: the property applies); "
         "a small malformed stream (empty chunks mid-stream) is compared with the model only. "
+        "40% of the piped exhaustive cases pipe into a handler with its OWN patterns (two-stage pipe); 8% of the small configurations draw text and patterns from "
+        "non-ASCII alphabets (NO-BREAK SPACE, IDEOGRAPHIC SPACE, LINE SEPARATOR, NEL, a combining mark, an astral character); usage cases: heads with lines that are "
+        "blank only for str.strip() (U+00A0, U+3000, U+2028, U+0085, \\x1c), comment lines behind such blanks, ZERO WIDTH SPACE (not a blank), texts with fewer than k+1 "
+        "non-empty lines (the waiter must not resume); topk cases: one buffer of 0-6 lines for _process (event) and wait_top_k_nonempty_lines (returned value, buffer left). "
         "non-trivial = at least one pattern configured, >= 2 chunkings, the text starts with the prefix (if any) and contains the first "
         "character of a configured suffix/stop sequence or a prefix is configured; distinct = distinct case JSON.")
 TRUSTED_BASE = [
@@ -34,7 +38,10 @@ TRUSTED_BASE = [
     "asyncio (queue FIFO order, tasks created by pipe_to run in creation order), CPython str methods startswith/endswith/find/in/slicing",
 ]
 ASSUMPTIONS = [
-    "the configuration (set_pattern, stop) is fixed before the first chunk; stop sequences are non-empty; buffering (enable_buffer) is off",
+    "plain cases: the configuration (set_pattern, stop) is fixed before the first chunk, buffering is off; usage cases: exactly the protocol generation.py performs (extracted by the translator, theorem generated_protocol_ok): enable_buffering, tokens, wait_top_k_nonempty_lines, set_pattern, tokens, set_pipe_to, stop=, disable_buffering, tokens, on_llm_end at any of its positions; stop sequences are non-empty",
+    "a text is a sequence of Unicode scalar values (Python str without lone surrogates = List Char in Lean); a chunk boundary may fall between ANY two code points, also between a base character and its combining mark; an astral character is one code point on both sides (no boundary inside it); lone surrogates cannot pass the JSON codecs and are outside the quantifier",
+    "white space (str.strip() in _process / wait_top_k_nonempty_lines) = the code points with str.isspace() in the running CPython, regenerated into Generated/C18.lean on every run and pinned by theorem ws_table_pinned",
+    "two-stage pipe: the consumer-side statement needs an end marker from the producer (always there with on_llm_end; push_chunk(\"\")/push_chunk(None) forward none after a stop sequence was hit or when text was held back) — without it only model = implementation is checked",
     "tokens are non-empty strings (the end markers are the only empty chunks); nothing is pushed after on_llm_end",
     "a text that does not start with the configured prefix: push_chunk end markers deliver nothing, on_llm_end flushes the whole text (as implemented; interpretation of 'the configured prefix removed')",
     "modelled by hand: StreamingHandler.push_chunk, _process, _forward, _remove_suffix_at_end, on_llm_end, on_llm_new_token (first empty token)",
